@@ -19,7 +19,7 @@ from .. import tlc, engine
 from ..common import Report, pmap, harness_errors, rng, setup_repo, canon
 
 PROP = 'C01'
-KINDS_NOFAULT = ['src', 'map', 'filter', 'del', 'obs', 'sort', 'fin', 'dup', 'cat']
+KINDS_NOFAULT = ['src', 'map', 'filter', 'del', 'obs', 'sort', 'fin', 'dup', 'cat', 'cond']
 
 
 def model(rep, max_len):
@@ -252,7 +252,7 @@ def run():
     rep.add_tlc(pres, 'EnginePrograms: the program universe exported for replay')
     modes = ['results', 'process', 'datastream']
     for n, c in enumerate(pres.cases):
-        steps = [dict(kind=x['kind'], **({'rows': list(x['rows'])} if 'rows' in x else {})) for x in c['steps']]
+        steps = [dict(x, **({'rows': list(x['rows'])} if 'rows' in x else {})) for x in c['steps']]
         items.append(dict(steps=steps, variants=engine.choose_variants(r, steps), mode=modes[n % 3]))
     rep.notes['model_programs_replayed'] = len(pres.cases)
     engine.check_traces(rep, items, 'C01')
